@@ -630,7 +630,7 @@ func runC17(res *vh.Result) {
 		"direct callers of the report-handler API (harness goroutines) stop before the stop request; the multicast channel and the tickers do not",
 		"schedules not produced by these runs are not decided",
 	}
-	n := vh.Tiered(80, 2000)
+	n := vh.Tiered(80, 10000)
 	res.Cases(n, func(i int, rng *vh.Rng) { c17Run(res, i, rng) }, func(i int, p interface{}, stack string) {
 		msg := fmt.Sprintf("panic: %v\n%s", p, stack)
 		res.Violate(i, "C17:"+vh.FaultSig(msg), "panic in a harness-called go-upf path", msg)
